@@ -70,6 +70,8 @@ def value_for(section, key, typ, src, flip, sb, absolute):
             return {"s": "::", "u": "/", "c": "-"}[src]
         if flip and src == "c" and key == "prefix" and absolute:
             return ""             # -p '' is a value, not an absent flag
+        if key == "prefix" and not flip:
+            return {"s": "prefix_s.", "u": "prefix_u::", "c": "prefix_c.-/"}[src]      # ends in characters separators are made of
         return {"s": f" {key[:6]}_{src} ", "u": f"{key[:6]} {src}\t", "c": f"{key[:6]}_{src}  "}[src] if flip else f"{key[:6]}_{src}"
     if typ == "strlist":
         return {"s": ["=", "-", "~"], "u": ["^", "+"], "c": ["*"]}[src]
